@@ -481,12 +481,13 @@ func ferun(c *Ctx) {
 					writeProject(projRoot, &p2)
 					env2 := append(append([]string{}, env...), "GOCACHE="+filepath.Join(c.Tmp, fmt.Sprintf("no-such-gocache-%d", pi)))
 					rr := runAny(mageBin, env2, "-l")
+					// (the twin collides only if its package is really imported: the model decides, as for any package)
 					impl := J{"build": classifyMsg(strings.TrimPrefix(rr.stderr, "Error: ")), "status": rr.status}
 					if rr.status == 0 {
-						impl = J{"calls": parseCalls(rr.stdout), "status": 0, "stop": classifyStop(rr), "listed": strings.Contains(rr.stdout, "Targets:")}
+						impl = J{"accepted": true}
 					}
 					dt, sy := docMaps(&p2)
-					c.Emit(J{"op": "fe.run", "project": &p2, "fields": commentFields(&p2), "words": []string{}, "conv": J{}, "docText": dt, "syn": sy}, impl, "late-collision", "start="+layout)
+					c.Emit(J{"op": "fe.accepts", "project": &p2, "fields": commentFields(&p2), "docText": dt, "syn": sy}, impl, "late-collision", "start="+layout, fmt.Sprintf("rejected=%v", rr.status != 0))
 				}
 			}
 		}
